@@ -57,6 +57,7 @@ def sym_tie(ctx, name, fn, variables, ret_type, model_term, leaf_ok, tactic, met
     """trace `fn`, emit `def name`, register `∀ vars, name vars = model_term`.  A trace that fails (the
     stand-ins no longer fit the code) is a broken obligation, never a crash."""
     from .leanio import InfraError
+    LEN_CALLS[0] = 0
     try:
         src, _tree, n = symx.extract(name, fn, variables, ret_type, leaf_ok, catch=CATCH,
                                      leaf_err=lambda nm: ERR.get(nm, ".error .index"))
@@ -69,6 +70,8 @@ def sym_tie(ctx, name, fn, variables, ret_type, model_term, leaf_ok, tactic, met
                  extra=dict(meta or {}))
         return
     ctx.symbolic_ties[name] = {"paths": n}
+    if LEN_CALLS[0]:
+        ctx.symbolic_ties[name]["len_of_stand_in_used"] = True   # see `_len_of`
     ctx.obligation(name, symx.tie(name, src, variables, model_term, tactic=tactic), meta)
 
 
@@ -291,6 +294,9 @@ class SInt:
         raise Untraceable("comparison of a looked-up index")
     __lt__ = __le__ = __gt__ = __ge__ = __eq__ = __ne__ = _no
 
+    def axis(self):
+        return self.base[1] if self.base[0] == "size" else self.base[3]
+
     def lean(self):
         if self.base[0] == "size":
             return f"(.size ({self.off}))"
@@ -298,8 +304,33 @@ class SInt:
         return f"(.bound {_bool(right)} {symx.num(v)} ({self.off}))"
 
 
-def _plan(x):
+# `len()` has to return a real int: the stand-ins answer with an opaque large number per axis, which the
+# leaves read back as "the size of axis k plus a literal offset".  (A branch on the length itself is
+# thereby followed as for a long axis; short axes are the differential runs' business.)
+_LEN_BASE = 1_000_003
+_LEN_SLACK = 1000
+LEN_CALLS = [0]
+
+
+def _len_of(axis):
+    LEN_CALLS[0] += 1
+    return _LEN_BASE * (axis + 1)
+
+
+def _unlen(x):
+    """a plain int that came out of `len()` of a stand-in (plus a small literal) -> SInt, else unchanged"""
+    if isinstance(x, int) and not isinstance(x, bool):
+        k, r = divmod(x + _LEN_SLACK, _LEN_BASE)
+        if 1 <= k <= 8 and r <= 2 * _LEN_SLACK:
+            return SInt(("size", k - 1), r - _LEN_SLACK)
+    return x
+
+
+def _plan(x, axis=None):
+    x = _unlen(x)
     if isinstance(x, SInt):
+        if axis is not None and x.axis() != axis:
+            raise Untraceable(f"the lookup on axis {axis} answers with the size / a slice bound of axis {x.axis()}")
         return x.lean()
     if isinstance(x, int) and not isinstance(x, bool):
         return f"(.const ({x}))"
@@ -311,8 +342,10 @@ class SIndex:
     is_monotonic_increasing = True
     is_unique = True
 
-    def __init__(self, axis, lo, hi):
+    def __init__(self, axis, lo, hi, attrs=None):
         self.axis, self.lo, self.hi = axis, lo, hi
+        self.attrs = dict(attrs or {})      # `arr.coords[dim].attrs`: a hand-made axis carries none
+        self.dims = (f"d{axis}",)
 
     def min(self, *a, **k): return self.lo
     def max(self, *a, **k): return self.hi
@@ -333,12 +366,14 @@ class SIndex:
         return SInt(("size", self.axis))
 
     def __len__(self):
-        raise Untraceable("len() of a symbolic index (use sizes)")
+        return _len_of(self.axis)
 
 
 class _Map:
-    def __init__(self, d):
-        self.d = d
+    """a mapping; `order` = the order in which its keys are listed (xarray lists coordinates / indexes in
+    the order they were registered, which need not be the order of the dimensions)"""
+    def __init__(self, d, order=None):
+        self.d = {k: d[k] for k in order} if order is not None else d
 
     def __getitem__(self, k):
         if k not in self.d:
@@ -349,7 +384,9 @@ class _Map:
     def get(self, k, default=None): return self.d.get(k, default)
     def keys(self): return self.d.keys()
     def items(self): return self.d.items()
+    def values(self): return self.d.values()
     def __iter__(self): return iter(self.d)
+    def __len__(self): return len(self.d)
 
 
 class SData:
@@ -365,12 +402,14 @@ class SData:
 
 class SArray:
     """an array with dimensions d0 … d(n-1), each an increasing axis with range (lo_k, hi_k)"""
-    def __init__(self, n, sy):
+    def __init__(self, n, sy, attrs=None):
         self.ndim = n
         self.dims = tuple(f"d{k}" for k in range(n))
-        idx = {f"d{k}": SIndex(k, sy[f"lo{k}"], sy[f"hi{k}"]) for k in range(n)}
-        self.indexes = _Map(idx)
-        self.coords = _Map(idx)
+        idx = {f"d{k}": SIndex(k, sy[f"lo{k}"], sy[f"hi{k}"], attrs) for k in range(n)}
+        # registration order of the coordinates != order of the dimensions (rotated: no axis keeps its place)
+        order = list(self.dims[1:]) + list(self.dims[:1])
+        self.indexes = _Map(idx, order)
+        self.coords = _Map(idx, order)
         self.sizes = _Map({f"d{k}": SInt(("size", k)) for k in range(n)})
         self.shape = tuple(SInt(("size", k)) for k in range(n))
         self.data = SData()
@@ -393,18 +432,42 @@ class SArray:
     def get_index(self, key):
         return self.indexes[key]
 
+    def __len__(self):
+        return _len_of(0)
+
 
 def index_ties(ctx):
     from soundevent.arrays import dimensions as dims
     V = ["lo0", "hi0", "v"]
     sy = {n: ZSym.var(n) for n in V}
     ret = f"Except {A}AErr {A}IdxPlan"
-    for tag, kw, raise_ in (("raise", {"raise_error": True}, True), ("clamp", {"raise_error": False}, False),
-                            ("default", {}, True)):
+    modes = (("raise", {"raise_error": True}, True), ("clamp", {"raise_error": False}, False), ("default", {}, True))
+    for tag, kw, raise_ in modes:
         name = f"ext_index_kernel_{tag}"
         sym_tie(ctx, name, lambda kw=kw: dims.get_coord_index(SArray(1, sy), "d0", sy["v"], **kw), V, ret,
                 f"{A}indexKernel lo0 hi0 v {_bool(raise_)}", lambda r: f".ok {_plan(r)}",
                 tactic=f"unfold {name}\n  se_c16", meta={"op": "coord_index"})
+    # … on an axis as the range constructors build it (carries a `step` attribute; the range of the axis is
+    # still that of its coordinates)
+    Vs = V + ["step"]
+    sys_ = {x: ZSym.var(x) for x in Vs}
+    for tag, kw, raise_ in modes[:2]:
+        name = f"ext_index_kernel_stepattr_{tag}"
+        sym_tie(ctx, name,
+                lambda kw=kw: dims.get_coord_index(SArray(1, sys_, {"step": sys_["step"]}), "d0", sys_["v"], **kw),
+                Vs, ret, f"{A}indexKernel lo0 hi0 v {_bool(raise_)}", lambda r: f".ok {_plan(r)}",
+                tactic=f"unfold {name}\n  se_c16", meta={"op": "coord_index_dim"})
+    # the same lookup on every axis of a 2-D and a 3-D array: whatever the array is asked for (range, size,
+    # slice bound) has to be that of the queried axis
+    for n in (2, 3):
+        Vn = [f"{p}{k}" for k in range(n) for p in ("lo", "hi")] + ["v"]
+        syn = {x: ZSym.var(x) for x in Vn}
+        for k in range(n):
+            for tag, kw, raise_ in (modes if n == 2 else modes[1:2]):
+                name = f"ext_index_kernel_{n}d_{k}_{tag}"
+                sym_tie(ctx, name, lambda kw=kw, n=n, k=k, syn=syn: dims.get_coord_index(SArray(n, syn), f"d{k}", syn["v"], **kw),
+                        Vn, ret, f"{A}indexKernel lo{k} hi{k} v {_bool(raise_)}", lambda r, k=k: f".ok {_plan(r, k)}",
+                        tactic=f"unfold {name}\n  se_c16", meta={"op": "coord_index_nd"})
 
 
 VALUE = object()
